@@ -921,11 +921,10 @@ func c20GenEncFlags(c *Ctx) {
 					par := fmt.Sprintf("%s ntt=%d mont=%d reuse=%d", c20ParTokens(ps, lq, lp, w), c20B2i(ntt), c20B2i(mont), c20B2i(reuse))
 					c.Probe("rgsw_enc_pt_preserved", par, "rgsw-enc-copylvl-reversed", detail)
 					// probe: the rows encrypt the plaintext handed in
-					ref := ps.rgswPlaintext(g, lq, true, true)
-					l0, l1 := rgsw.NoiseRGSWCiphertext(ct, ref.Value, sk, ps.params)
+					worst := c20RowErr(ps, sk, ct, g, w)
 					d2 := ""
-					if l0 > 4 || l1 > 4 {
-						d2 = fmt.Sprintf("log2(std of row errors)x1000=%d,%d ntt=%v mont=%v reuse=%v", int(l0*1000), int(l1*1000), ntt, mont, reuse)
+					if worst > uint64(ps.params.NoiseBound())+1 {
+						d2 = fmt.Sprintf("max row error=%d bound=%d ntt=%v mont=%v reuse=%v", worst, uint64(ps.params.NoiseBound())+1, ntt, mont, reuse)
 					}
 					key := "rgsw-enc-copylvl-reversed"
 					if lp == -1 {
